@@ -1,10 +1,598 @@
-import RumaModel.Model.Ids
+/-
+  C10 — Identifier parsing is total, lossless and accepts only the spec's grammar.
+  Property theorems only; helper lemmas live in `Lemmas/Ids*.lean`.
+
+  Reading guide. `validate x k s` (`Model/Ids.lean`) is the validation function identifier type
+  `k` is parsed with, on the bytes `s` of a Rust `&str`; its result is `ok`, `err` or `panic`.
+  `x : Ext` holds the external code (`Ipv6Addr`/`Ipv4Addr` parsers, `char::is_alphanumeric`); all
+  theorems hold for every `x`. Rust strings are well-formed UTF-8: `utf8Valid s`. Totality is by
+  construction (every model function is a total Lean function). `struct` / `gram`
+  (`Spec/IdGrammar.lean`) are the required structure and the recommended grammar.
+-/
+import RumaModel.Lemmas.IdsGram
 namespace Ruma.Props.C10
-open Ruma Ruma.Ids
+open Ruma Ruma.Ids Ruma.Spec.IdGrammar
 
-/-- placeholder while the tie is being built -/
-theorem witness_big_port (x : Ext) : serverNameValidate x (bs "a:99999") = .err := by
-  simp [serverNameValidate, endOfHost, bs, find, sliceTo, sliceFrom, isBoundary, isCont, hostByteOk, isAlnum, isDigit, isLower, isUpper, isValidPort, parseU16, digitsVal]
+/-! ## No panics -/
 
-#print axioms witness_big_port
+/-- Parsing any string as any identifier type never panics: every slice, index and `unwrap` in the
+validators is in range and on a char boundary. -/
+theorem validate_never_panics (x : Ext) (k : Kind) (s : Str) (h : utf8Valid s = true) :
+    validate x k s ≠ .panic := by
+  have hs := sep_of_utf8Valid s h
+  cases k <;> simp only [validate]
+  · exact delimitedValidate_ne_panic hs (by omega) (by omega)
+  · exact roomIdValidate_ne_panic
+  · exact delimitedValidate_ne_panic hs (by omega) (by omega)
+  · unfold roomOrAliasIdValidate
+    split
+    · exact delimitedValidate_ne_panic hs (by omega) (by omega)
+    · exact roomIdValidate_ne_panic
+    · simp
+  · exact eventIdValidate_ne_panic hs
+  · exact serverNameValidate_ne_panic hs
+  all_goals first
+    | (have := keyIdValidate_ne_panic (x := x) (k := .any) hs
+       cases hk : keyIdValidate x .any s <;> simp_all [Res.void]; done)
+    | (have := keyIdValidate_ne_panic (x := x) (k := .signingKeyVersion) hs
+       cases hk : keyIdValidate x .signingKeyVersion s <;> simp_all [Res.void]; done)
+    | (have := keyIdValidate_ne_panic (x := x) (k := .base64) hs
+       cases hk : keyIdValidate x .base64 s <;> simp_all [Res.void]; done)
+    | (have := mxcValidate_ne_panic (x := x) hs
+       cases hk : mxcValidate x s <;> simp_all [Res.void]; done)
+    | exact roomVersionIdValidate_ne_panic
+    | exact serverSigningKeyVersionValidate_ne_panic
+    | exact base64PublicKeyValidate_ne_panic
+    | exact clientSecretValidate_ne_panic
+    | exact sessionIdValidate_ne_panic
+
+/-- `user_id::validate_strict` never panics either. -/
+theorem validate_strict_never_panics (x : Ext) (s : Str) (h : utf8Valid s = true) :
+    userIdValidateStrict x s ≠ .panic := by
+  have hs := sep_of_utf8Valid s h
+  unfold userIdValidateStrict
+  split
+  · simp
+  · cases hp : parseId x s 64 with
+    | err => simp
+    | panic => exact absurd hp (parseId_ne_panic hs)
+    | ok ci =>
+      obtain ⟨lp, srv, ⟨rfl, _, _, _⟩, rfl⟩ := (parseId_ok_iff hs (by omega)).1 hp
+      simp only [slice_one_at hs (by omega : 64 < 128) (by omega : 58 < 128)]
+      have hl : localpartFullyConforming lp ≠ .panic := by
+        unfold localpartFullyConforming
+        exact ite_ne_panic (by simp) (ite_ne_panic (by simp) (ite_ne_panic (by simp) (by simp)))
+      cases hc : localpartFullyConforming lp with
+      | ok b => cases b <;> simp
+      | err => simp
+      | panic => exact absurd hc hl
+
+/-! ## Accessors: never panic, recompose to the original -/
+
+/-- User IDs and room aliases: `localpart()`/`alias()` and `server_name()` return the two parts,
+`sigil ++ localpart ++ ":" ++ server_name` is the original string, and the server name is itself an
+accepted server name. -/
+theorem accessors_recompose_delimited (x : Ext) (k : Kind) (s : Str) (h : utf8Valid s = true)
+    (hk : k = .user ∨ k = .alias) (hv : validate x k s = .ok ()) :
+    ∃ lp srv, localpart s = .ok lp ∧ serverNameOf s = .ok srv
+      ∧ s = (if k = .user then 64 else 35) :: (lp ++ 58 :: srv)
+      ∧ validate x .server srv = .ok () := by
+  have hs := sep_of_utf8Valid s h
+  rcases hk with rfl | rfl
+  · obtain ⟨lp, srv, ⟨rfl, _, hlp, hsrv⟩, _⟩ :=
+      (delimitedValidate_ok_iff hs (by omega) (by omega)).1 hv
+    obtain ⟨h1, h2⟩ := accessors_delim hs (by omega) (by omega) hlp
+    exact ⟨lp, srv, h1, h2, by simp,
+      (serverNameValidate_ok_iff (by simpa using hs.tail.of_append_right.tail)).2 hsrv⟩
+  · obtain ⟨lp, srv, ⟨rfl, _, hlp, hsrv⟩, _⟩ :=
+      (delimitedValidate_ok_iff hs (by omega) (by omega)).1 hv
+    obtain ⟨h1, h2⟩ := accessors_delim hs (by omega) (by omega) hlp
+    exact ⟨lp, srv, h1, h2, by simp,
+      (serverNameValidate_ok_iff (by simpa using hs.tail.of_append_right.tail)).2 hsrv⟩
+
+/-- Event IDs: `localpart()` and `server_name()` recompose to the original, with or without a
+server name. -/
+theorem accessors_recompose_event (x : Ext) (s : Str) (h : utf8Valid s = true)
+    (hv : validate x .event s = .ok ()) :
+    ∃ lp, eventLocalpart s = .ok lp ∧
+      ((eventServerName s = .ok none ∧ s = 36 :: lp) ∨
+        ∃ srv, eventServerName s = .ok (some srv) ∧ s = 36 :: (lp ++ 58 :: srv)
+          ∧ validate x .server srv = .ok ()) := by
+  have hs := sep_of_utf8Valid s h
+  rcases (eventIdValidate_ok_iff hs).1 hv with ⟨lp, srv, rfl, _, hlp, hsrv⟩ | ⟨hc, _, hhead⟩
+  · obtain ⟨h1, h2⟩ := event_accessors_delim hs hlp
+    exact ⟨lp, h1, .inr ⟨srv, h2, rfl,
+      (serverNameValidate_ok_iff (by simpa using hs.tail.of_append_right.tail)).2 hsrv⟩⟩
+  · cases s with
+    | nil => simp at hhead
+    | cons c t =>
+      simp at hhead; subst hhead
+      obtain ⟨h1, h2⟩ := event_accessors_plain hs (fun hm => hc (by simp [hm]))
+      exact ⟨t, h1, .inl ⟨h2, rfl⟩⟩
+
+/-- Room IDs and room-or-alias IDs: `server_name()` never panics and, when it returns a server
+name, that is an accepted server name following the first colon; `is_room_id()` is decided by the
+sigil and never reaches `unreachable_unchecked`. -/
+theorem accessors_room (x : Ext) (k : Kind) (s : Str) (h : utf8Valid s = true)
+    (hk : k = .room ∨ k = .roomOrAlias) (hv : validate x k s = .ok ()) :
+    roomServerName x s ≠ .panic
+      ∧ (∀ srv, roomServerName x s = .ok (some srv) →
+          (∃ pre, s = pre ++ 58 :: srv ∧ 58 ∉ pre) ∧ validate x .server srv = .ok ())
+      ∧ (isRoomId s = .ok true ∨ isRoomId s = .ok false) := by
+  have hs := sep_of_utf8Valid s h
+  refine ⟨roomServerName_ne_panic hs, ?_, ?_⟩
+  · intro srv hsrv
+    obtain ⟨pre, rfl, hn, hok⟩ := roomServerName_some hs hsrv
+    exact ⟨⟨pre, rfl, hn⟩, (serverNameValidate_ok_iff hs.of_append_right.tail).2 hok⟩
+  · rcases hk with rfl | rfl
+    · obtain ⟨_, hh, _⟩ := roomIdValidate_ok_iff.1 hv
+      left; simp [isRoomId, hh]
+    · simp only [validate, roomOrAliasIdValidate] at hv
+      split at hv
+      · rename_i hh; right; simp [isRoomId, hh]
+      · rename_i hh; left; simp [isRoomId, hh]
+      · simp at hv
+
+/-- Server names: `host()` and `port()` never panic and `host ++ (":" ++ port)?` is the original
+string (the port digits parse to the returned number); `is_ip_literal()` never panics. -/
+theorem accessors_recompose_server (x : Ext) (s : Str) (h : utf8Valid s = true)
+    (hv : validate x .server s = .ok ()) :
+    ∃ hst, host s = .ok hst ∧ isIpLiteral x s ≠ .panic ∧
+      ((port s = .ok none ∧ s = hst) ∨
+        ∃ p v, port s = .ok (some v) ∧ s = hst ++ 58 :: p ∧ parseU16 p = some v) := by
+  have hs := sep_of_utf8Valid s h
+  obtain ⟨hst, _, hh, hrest⟩ := host_port_of_serverOk hs ((serverNameValidate_ok_iff hs).1 hv)
+  refine ⟨hst, hh, by simp [isIpLiteral, hh], ?_⟩
+  rcases hrest with ⟨h1, h2⟩ | ⟨p, v, h1, _, h3, h4⟩
+  · exact .inl ⟨h2, h1⟩
+  · exact .inr ⟨p, v, h4, h1, h3⟩
+
+/-- Key IDs: `algorithm()` and `key_name()` never panic (the `unreachable!()` in `key_name` is
+unreachable) and `algorithm ++ ":" ++ key_name` is the original string. -/
+theorem accessors_recompose_key (x : Ext) (k : Kind) (s : Str) (h : utf8Valid s = true)
+    (hk : k = .keyAny ∨ k = .keyVersion ∨ k = .keyBase64) (hv : validate x k s = .ok ()) :
+    ∃ alg name, keyAlgorithm s = .ok alg ∧ keyName x (keyKind k) s = .ok name
+      ∧ s = alg ++ 58 :: name := by
+  have hs := sep_of_utf8Valid s h
+  have key : ∀ kk, (keyIdValidate x kk s).void = .ok () →
+      ∃ alg name, keyAlgorithm s = .ok alg ∧ keyName x kk s = .ok name ∧ s = alg ++ 58 :: name := by
+    intro kk hv
+    cases hki : keyIdValidate x kk s with
+    | err => simp [hki, Res.void] at hv
+    | panic => simp [hki, Res.void] at hv
+    | ok ci =>
+      obtain ⟨alg, name, ⟨rfl, hn, _, hkn⟩, _⟩ := (keyIdValidate_ok_iff hs).1 hki
+      obtain ⟨h1, h2⟩ := key_accessors hs hn hkn
+      exact ⟨alg, name, h1, h2, rfl⟩
+  rcases hk with rfl | rfl | rfl <;> exact key _ hv
+
+/-- MXC URIs: `parts()` (hence `server_name()`, `media_id()`, `validate()`, `is_valid()`) never
+panics on any string, and on a valid URI `"mxc://" ++ server_name ++ "/" ++ media_id` is the
+original string with an accepted server name. -/
+theorem accessors_recompose_mxc (x : Ext) (s : Str) (h : utf8Valid s = true) :
+    mxcParts x s ≠ .panic ∧
+      (validate x .mxc s = .ok () →
+        ∃ srv media, mxcParts x s = .ok (srv, media) ∧ s = bs "mxc://" ++ (srv ++ 47 :: media)
+          ∧ validate x .server srv = .ok ()) := by
+  have hs := sep_of_utf8Valid s h
+  refine ⟨mxcParts_ne_panic hs, ?_⟩
+  intro hv
+  simp only [validate] at hv
+  cases hm : mxcValidate x s with
+  | err => simp [hm, Res.void] at hv
+  | panic => simp [hm, Res.void] at hv
+  | ok idx =>
+    obtain ⟨srv, media, hok, _⟩ := (mxcValidate_ok_iff hs).1 hm
+    obtain ⟨rfl, _, _, hsrv⟩ := id hok
+    refine ⟨srv, media, mxcParts_ok hs hok, by rw [bs_mxc], ?_⟩
+    exact (serverNameValidate_ok_iff hs.of_append_right.of_append_left).2 hsrv
+
+/-! ## Accepted ⇒ required structure -/
+
+/-- Every accepted identifier has the structure the specification requires of its type: sigil, at
+most 255 bytes, no NUL or colon in the localpart, a server name that is a non-empty hostname / IPv4
+literal or a bracketed IPv6 literal with an optional port of 1–5 digits (`Spec.IdGrammar.struct`). -/
+theorem accept_implies_structure (x : Ext) (k : Kind) (s : Str) (h : utf8Valid s = true)
+    (hv : validate x k s = .ok ()) : struct x.isIpv6 k s = true := by
+  have hs := sep_of_utf8Valid s h
+  have key : ∀ kk, (keyIdValidate x kk s).void = .ok () →
+      ∃ alg name, KeyOk x kk s alg name := by
+    intro kk hv
+    cases hki : keyIdValidate x kk s with
+    | err => simp [hki, Res.void] at hv
+    | panic => simp [hki, Res.void] at hv
+    | ok ci =>
+      obtain ⟨alg, name, hok, _⟩ := (keyIdValidate_ok_iff hs).1 hki
+      exact ⟨alg, name, hok⟩
+  have algOk : ∀ alg : Str, alg ≠ [] → 58 ∉ alg → (!alg.isEmpty && alg.all (· != 58)) = true := by
+    intro alg h1 h2
+    simp only [Bool.and_eq_true, all_ne_iff.2 h2, and_true]
+    cases alg <;> simp_all
+  cases k <;> simp only [validate] at hv <;> simp only [struct]
+  · -- user
+    obtain ⟨lp, srv, hd, h0⟩ := (delimitedValidate_ok_iff hs (by omega) (by omega)).1 hv
+    exact struct_delim hd h0
+  · -- room
+    obtain ⟨h1, h2, h3⟩ := roomIdValidate_ok_iff.1 hv
+    simp [structRoom, max255, h1, h2, all_ne_iff.2 h3]
+  · -- alias
+    obtain ⟨lp, srv, hd, h0⟩ := (delimitedValidate_ok_iff hs (by omega) (by omega)).1 hv
+    exact struct_delim hd h0
+  · -- room or alias
+    unfold roomOrAliasIdValidate at hv
+    split at hv
+    · obtain ⟨lp, srv, hd, h0⟩ := (delimitedValidate_ok_iff hs (by omega) (by omega)).1 hv
+      rw [Bool.or_eq_true]; right; exact struct_delim hd h0
+    · obtain ⟨h1, h2, h3⟩ := roomIdValidate_ok_iff.1 hv
+      rw [Bool.or_eq_true]; left
+      simp [structRoom, max255, h1, h2, all_ne_iff.2 h3]
+    · simp at hv
+  · -- event
+    rcases (eventIdValidate_ok_iff hs).1 hv with ⟨lp, srv, he, hlen, hlp, hsrv⟩ | ⟨hc, hlen, hh⟩
+    · have hd : delimited 36 (fun lp => lp.all (· != 58)) (structServerName x.isIpv6) s = true :=
+        delimited_iff.2 ⟨lp, srv, he, all_ne_iff.2 hlp, structServerName_of_serverOk hsrv⟩
+      have hh : s.head? = some 36 := by rw [he]; rfl
+      simp only [Bool.and_eq_true, Bool.or_eq_true, max255, decide_eq_true_eq]
+      exact ⟨⟨hlen, hh⟩, .inr hd⟩
+    · simp only [Bool.and_eq_true, Bool.or_eq_true, max255, decide_eq_true_eq]
+      exact ⟨⟨hlen, hh⟩, .inl (all_ne_iff.2 hc)⟩
+  · -- server
+    exact structServerName_of_serverOk ((serverNameValidate_ok_iff hs).1 hv)
+  · -- key (any)
+    obtain ⟨alg, name, rfl, hn, hne, _⟩ := key _ hv
+    exact cutAt_iff.2 ⟨alg, name, rfl, algOk alg hne hn, rfl⟩
+  · -- key (signing key version)
+    obtain ⟨alg, name, rfl, hn, hne, hkn⟩ := key _ hv
+    refine cutAt_iff.2 ⟨alg, name, rfl, algOk alg hne hn, ?_⟩
+    simp only [keyNameValidate, serverSigningKeyVersionValidate] at hkn
+    cases name <;> simp_all [keyNameStruct]
+  · -- key (base64)
+    obtain ⟨alg, name, rfl, hn, hne, hkn⟩ := key _ hv
+    refine cutAt_iff.2 ⟨alg, name, rfl, algOk alg hne hn, ?_⟩
+    simp only [keyNameValidate, base64PublicKeyValidate] at hkn
+    cases name <;> simp_all [keyNameStruct]
+  · -- mxc
+    cases hm : mxcValidate x s with
+    | err => simp [hm, Res.void] at hv
+    | panic => simp [hm, Res.void] at hv
+    | ok idx =>
+      obtain ⟨srv, media, ⟨rfl, hn, hmed, hsrv⟩, _⟩ := (mxcValidate_ok_iff hs).1 hm
+      have ht : (mxcPrefix ++ (srv ++ 47 :: media)).take 6 = mxcPrefix := List.take_left' rfl
+      have hd : (mxcPrefix ++ (srv ++ 47 :: media)).drop 6 = srv ++ 47 :: media :=
+        List.drop_left' rfl
+      simp only [mxc, ht, hd, bs_mxc, beq_self_eq_true, Bool.true_and]
+      refine cutAt_iff.2 ⟨srv, media, rfl, structServerName_of_serverOk hsrv, ?_⟩
+      rw [all_congr mediaChar_eq]; exact hmed
+  · -- room version
+    unfold roomVersionIdValidate at hv
+    cases s with
+    | nil => simp at hv
+    | cons a t =>
+      by_cases hc : charCount (a :: t) > 32
+      · simp [hc] at hv
+      · simp [codePoints_eq]; omega
+  · -- signing key version
+    unfold serverSigningKeyVersionValidate at hv
+    cases s <;> simp_all
+  · -- base64 public key
+    unfold base64PublicKeyValidate at hv
+    cases s <;> simp_all
+  · -- client secret
+    unfold clientSecretValidate at hv
+    by_cases hl : s.length > 255
+    · simp [hl] at hv
+    · cases s with
+      | nil => simp at hv
+      | cons a t => simp [max255]; simp at hl; omega
+  · -- session id
+    unfold sessionIdValidate at hv
+    by_cases hl : s.length > 255
+    · simp [hl] at hv
+    · cases s with
+      | nil => simp at hv
+      | cons a t => simp [max255]; simp at hl; omega
+
+/-- Where the code enforces a length limit, an accepted identifier is within it: 255 bytes for
+user, room, alias, room-or-alias and event IDs, client secrets and session IDs; 32 code points for
+room versions. (Server names, key IDs and MXC URIs have no limit in the code.) -/
+theorem length_limit (x : Ext) (k : Kind) (s : Str) (h : utf8Valid s = true)
+    (hv : validate x k s = .ok ()) :
+    (k ∈ [Kind.user, .room, .alias, .roomOrAlias, .event, .clientSecret, .sessionId] →
+        s.length ≤ 255)
+      ∧ (k = .roomVersion → codePoints s ≤ 32) := by
+  have hst := accept_implies_structure x k s h hv
+  constructor
+  · intro hk
+    simp only [List.mem_cons, List.not_mem_nil, or_false] at hk
+    rcases hk with rfl | rfl | rfl | rfl | rfl | rfl | rfl <;>
+      simp only [struct, structRoom, structAlias, max255, Bool.and_eq_true, Bool.or_eq_true,
+        decide_eq_true_eq] at hst
+    · exact hst.1
+    · exact hst.1.1
+    · exact hst.1
+    · rcases hst with hst | hst
+      · exact hst.1.1
+      · exact hst.1
+    · exact hst.1.1
+    · exact hst.2
+    · exact hst.2
+  · rintro rfl
+    simp only [struct, Bool.and_eq_true, decide_eq_true_eq] at hst
+    exact hst.2
+
+/-! ## Recommended grammar ⇒ accepted -/
+
+/-- Full-strength statement: every identifier in the specification's recommended grammar is
+accepted. It is FALSE for the code as it is (see `grammar_not_always_accepted`). -/
+def grammar_implies_acceptStatement : Prop :=
+  ∀ (x : Ext) (k : Kind) (s : Str), utf8Valid s = true → gram x.isIpv6 k s = true →
+    validate x k s = .ok ()
+
+/-- Proved part: every identifier in the recommended grammar is accepted, EXCEPT when its server
+name carries a port whose value exceeds 65535 (`hasBigPort`). Missing relative to the full
+statement: exactly those identifiers (known finding F10, fourth item). -/
+theorem grammar_implies_accept_partial (x : Ext) (k : Kind) (s : Str) (h : utf8Valid s = true)
+    (hg : gram x.isIpv6 k s = true) (hp : hasBigPort x.isIpv6 k s = false) :
+    validate x k s = .ok () := by
+  have hs := sep_of_utf8Valid s h
+  cases k <;> simp only [gram] at hg <;> simp only [hasBigPort] at hp <;> simp only [validate]
+  · -- user
+    simp only [Bool.and_eq_true] at hg
+    obtain ⟨lp, srv, hd, h0⟩ := delimOk_of_gram (fun l hl => userIdChar_facts hl) hg.1 hg.2 hp
+    exact (delimitedValidate_ok_iff hs (by omega) (by omega)).2 ⟨lp, srv, hd, h0⟩
+  · exact gram_room hg
+  · exact gram_alias hs hg hp
+  · -- room or alias: the sigil selects the validator
+    rw [Bool.or_eq_true] at hg
+    unfold roomOrAliasIdValidate
+    rcases hg with hg | hg
+    · have hv := gram_room hg
+      obtain ⟨_, hh, _⟩ := roomIdValidate_ok_iff.1 hv
+      rw [hh]; exact hv
+    · have hv := gram_alias hs hg hp
+      obtain ⟨lp, srv, ⟨rfl, _⟩, _⟩ := (delimitedValidate_ok_iff hs (by omega) (by omega)).1 hv
+      exact hv
+  · exact gram_event hs hg hp
+  · exact (serverNameValidate_ok_iff hs).2 (serverOk_of_gram hg hp)
+  · exact gram_key hs (fun _ _ => rfl) hg
+  · exact gram_key hs (fun n hn => gram_signingKeyVersion hn) hg
+  · exact gram_key hs (fun n hn => gram_base64PublicKey hn) hg
+  · exact gram_mxc hs hg hp
+  · exact gram_roomVersion hg
+  · exact gram_signingKeyVersion hg
+  · exact gram_base64PublicKey hg
+  · exact gram_clientSecret hg
+  · exact gram_sessionId hg
+
+/-- Negation witness (machine-checked finding): `a:99999` is a server name of the recommended
+grammar (`1*5DIGIT` port) and is rejected, so the full-strength statement is false. -/
+theorem grammar_not_always_accepted : ¬ grammar_implies_acceptStatement := by
+  intro h
+  have e : bs "a:99999" = [97, 58, 57, 57, 57, 57, 57] := by decide
+  have := h ⟨fun _ => false, fun _ => false, fun _ => false⟩ .server (bs "a:99999")
+    (by rw [e]; decide +kernel) (by rw [e]; decide +kernel)
+  rw [e] at this
+  revert this
+  decide +kernel
+
+/-- The witness is exactly the excluded case, and the hypotheses of the partial theorem are
+satisfiable on non-trivial inputs (a user ID with an IPv6 literal and a port; the largest port). -/
+example : hasBigPort (fun _ => false) .server [97, 58, 57, 57, 57, 57, 57] = true := by
+  decide +kernel
+-- "@alice:[::1]:8448"
+example :
+    gram (fun c => c == [58, 58, 49]) .user
+        [64, 97, 108, 105, 99, 101, 58, 91, 58, 58, 49, 93, 58, 56, 52, 52, 56] = true
+    ∧ hasBigPort (fun c => c == [58, 58, 49]) .user
+        [64, 97, 108, 105, 99, 101, 58, 91, 58, 58, 49, 93, 58, 56, 52, 52, 56] = false := by
+  decide +kernel
+-- "a:65535"
+example : gram (fun _ => false) .server [97, 58, 54, 53, 53, 51, 53] = true
+    ∧ hasBigPort (fun _ => false) .server [97, 58, 54, 53, 53, 51, 53] = false := by
+  decide +kernel
+
+/-- An identifier in the recommended user ID grammar also passes `validate_strict`. -/
+theorem grammar_implies_strict (x : Ext) (s : Str) (h : utf8Valid s = true)
+    (hg : gram x.isIpv6 .user s = true) (hp : hasBigPort x.isIpv6 .user s = false) :
+    userIdValidateStrict x s = .ok () := by
+  have hs := sep_of_utf8Valid s h
+  simp only [gram, Bool.and_eq_true] at hg
+  simp only [hasBigPort] at hp
+  obtain ⟨l, srv, he, h1, _⟩ := delimited_iff.1 hg.2
+  obtain ⟨lp, srv', ⟨he', hlen, hlp, hsrv⟩, _⟩ :=
+    delimOk_of_gram (fun l hl => userIdChar_facts hl) hg.1 hg.2 hp
+  -- the two cuts are the same cut (first colon)
+  have hl : l = lp ∧ srv = srv' := by
+    have e : (64 :: l) ++ 58 :: srv = (64 :: lp) ++ 58 :: srv' := by
+      simpa using he.symm.trans he'
+    have h58 : 58 ∉ (64 :: l) := by simp [(userIdChar_facts h1).1]
+    have h58' : 58 ∉ (64 :: lp) := by simp [hlp]
+    have f1 := find_append (c := 58) (post := srv) h58
+    have f2 := find_append (c := 58) (post := srv') h58'
+    rw [e, f2] at f1
+    have hlen : lp.length = l.length := by simpa using f1
+    have e2 : l ++ 58 :: srv = lp ++ 58 :: srv' := by simpa using e
+    have := List.append_inj e2 hlen.symm
+    exact ⟨this.1, by simpa using this.2⟩
+  obtain ⟨rfl, rfl⟩ := hl
+  subst he
+  unfold userIdValidateStrict
+  rw [if_neg (by omega), (parseId_ok_iff hs (by omega)).2 ⟨l, srv, ⟨rfl, hlen, hlp, hsrv⟩, rfl⟩]
+  simp only [slice_one_at hs (by omega : 64 < 128) (by omega : 58 < 128)]
+  obtain ⟨hne, hall⟩ := nonEmptyAll_iff.1 h1
+  have hch : l.all userIdCharOk = true := by
+    rw [List.all_eq_true]
+    intro b hb
+    have := hall b hb
+    simp only [userIdChar, oneOf, bs, Bool.or_eq_true] at this
+    simp only [userIdCharOk, Bool.or_eq_true]
+    rcases this with (h1 | h1) | h1
+    · rw [isDigit_eq] at h1; simp [h1]
+    · have : isLower b = true := by simpa [lower, isLower] using h1
+      simp [this]
+    · simp at h1
+      rcases h1 with rfl | rfl | rfl | rfl | rfl | rfl <;> simp
+  simp [localpartFullyConforming, hne, hch]
+
+/-! ## Constructors -/
+
+/-- Whatever `UserId::parse_with_server_name` returns is accepted by the user ID parser; and when
+the argument is a bare localpart the result is `"@" ++ id ++ ":" ++ server`. -/
+theorem constructor_accepted_parse_with_server_name (x : Ext) (id server r : Str)
+    (hr : parseWithServerName x id server = .ok r) :
+    validate x .user r = .ok () ∧ (id.head? ≠ some 64 → r = 64 :: (id ++ 58 :: server)) := by
+  unfold parseWithServerName at hr
+  by_cases h1 : id.head? = some 64
+  · simp only [h1, if_true] at hr
+    cases hu : userIdValidate x id with
+    | ok u => cases u; simp only [hu, Res.ok.injEq] at hr; subst hr; exact ⟨hu, fun h => absurd h1 h⟩
+    | err => simp [hu] at hr
+    | panic => simp [hu] at hr
+  · simp only [h1, if_false] at hr
+    by_cases h2 : localpartCompat id = true
+    · simp only [h2, Bool.not_true, Bool.false_eq_true, if_false] at hr
+      cases hu : userIdValidate x (64 :: (id ++ 58 :: server)) with
+      | ok u =>
+        cases u
+        simp only [hu, Res.ok.injEq] at hr
+        subst hr
+        exact ⟨hu, fun _ => by simp⟩
+      | err => simp [hu] at hr
+      | panic => simp [hu] at hr
+    · simp [h2] at hr
+
+/-- `parse_with_server_name` never panics, and completes a bare localpart (no `:`/NUL) with an
+accepted server name whenever the result fits in 255 bytes. -/
+theorem parse_with_server_name_total (x : Ext) (id server : Str) (h : utf8Valid id = true)
+    (hsrv : utf8Valid server = true) :
+    parseWithServerName x id server ≠ .panic
+      ∧ (id.head? ≠ some 64 → localpartCompat id = true → validate x .server server = .ok () →
+          id.length + server.length + 2 ≤ 255 →
+          parseWithServerName x id server = .ok (64 :: (id ++ 58 :: server))) := by
+  have hs1 := sep_of_utf8Valid id h
+  have hs2 := sep_of_utf8Valid server hsrv
+  -- the completed string is `Sep` too: its pieces are, and the joints are ASCII
+  have hfull : Sep (64 :: (id ++ 58 :: server)) := by
+    intro i b c hb hlt hc
+    cases i with
+    | zero =>
+      simp at hb; subst hb
+      cases id with
+      | nil => simp at hc; subst hc; rfl
+      | cons a t =>
+        simp at hc; subst hc
+        exact not_isCont_head_of_utf8Valid h
+    | succ j =>
+      simp only [List.getElem?_cons_succ] at hb hc
+      by_cases hj : j + 1 < id.length
+      · rw [List.getElem?_append_left (by omega)] at hb
+        rw [List.getElem?_append_left hj] at hc
+        exact hs1 j b c hb hlt hc
+      · by_cases hj2 : j < id.length
+        · have : j + 1 = id.length := by omega
+          rw [List.getElem?_append_right (by omega), this] at hc
+          simp at hc; subst hc; rfl
+        · rw [List.getElem?_append_right (by omega)] at hb
+          rw [List.getElem?_append_right (by omega)] at hc
+          by_cases hj3 : j = id.length
+          · subst hj3
+            simp at hb; subst hb
+            simp only [Nat.add_sub_cancel_left, List.getElem?_cons_succ] at hc
+            cases server with
+            | nil => simp at hc
+            | cons a t =>
+              simp at hc; subst hc
+              exact not_isCont_head_of_utf8Valid hsrv
+          · obtain ⟨m, hm⟩ : ∃ m, j - id.length = m + 1 := ⟨j - id.length - 1, by omega⟩
+            have hm2 : j + 1 - id.length = m + 2 := by omega
+            rw [hm] at hb; rw [hm2] at hc
+            simp only [List.getElem?_cons_succ] at hb hc
+            exact hs2 m b c hb hlt hc
+  constructor
+  · unfold parseWithServerName
+    by_cases h1 : id.head? = some 64
+    · simp only [h1, if_true]
+      have := delimitedValidate_ne_panic (x := x) (sigil := 64) hs1 (by omega) (by omega)
+      cases hu : userIdValidate x id with
+      | ok u => cases u; simp
+      | err => simp
+      | panic => exact absurd hu this
+    · simp only [h1, if_false]
+      by_cases h2 : localpartCompat id = true
+      · simp only [h2, Bool.not_true, Bool.false_eq_true, if_false]
+        have := delimitedValidate_ne_panic (x := x) (sigil := 64) hfull (by omega) (by omega)
+        cases hu : userIdValidate x (64 :: (id ++ 58 :: server)) with
+        | ok u => cases u; simp
+        | err => simp
+        | panic => exact absurd hu this
+      · simp [h2]
+  · intro h1 h2 h3 h4
+    unfold parseWithServerName
+    simp only [h1, if_false, h2, Bool.not_true, Bool.false_eq_true]
+    have hok : userIdValidate x (64 :: (id ++ 58 :: server)) = .ok () := by
+      obtain ⟨hc, h0⟩ := localpartCompat_iff.1 h2
+      exact (delimitedValidate_ok_iff hfull (by omega) (by omega)).2
+        ⟨id, server, ⟨rfl, by simp; omega, hc, (serverNameValidate_ok_iff hs2).1 h3⟩, h0⟩
+    rw [hok]
+
+/-- `KeyId::from_parts(algorithm, key_name)` with a non-empty colon-free algorithm name and a valid
+key name is accepted by the key ID parser, and its accessors return the two parts. -/
+theorem constructor_accepted_key_from_parts (x : Ext) (k : Kind) (alg name : Str)
+    (h : utf8Valid (keyFromParts alg name) = true)
+    (hk : k = .keyAny ∨ k = .keyVersion ∨ k = .keyBase64)
+    (halg : alg ≠ []) (hcol : 58 ∉ alg) (hname : keyNameValidate x (keyKind k) name = .ok ()) :
+    validate x k (keyFromParts alg name) = .ok ()
+      ∧ keyAlgorithm (keyFromParts alg name) = .ok alg
+      ∧ keyName x (keyKind k) (keyFromParts alg name) = .ok name := by
+  have hs := sep_of_utf8Valid _ h
+  unfold keyFromParts at hs ⊢
+  obtain ⟨h1, h2⟩ := key_accessors hs hcol hname
+  refine ⟨?_, h1, h2⟩
+  have hv := (keyIdValidate_ok_iff (ci := alg.length) hs).2 ⟨alg, name, ⟨rfl, hcol, halg, hname⟩, rfl⟩
+  rcases hk with rfl | rfl | rfl <;> simp only [validate] <;> (simp only [keyKind] at hv; rw [hv]; rfl)
+
+/-- `UserId::new`, `RoomId::new`, `EventId::new` (sigil, a non-empty alphanumeric localpart, `:`, an
+accepted server name) build identifiers the parser accepts, provided they fit in 255 bytes (and,
+for room IDs, the server name has no NUL — true of every real server name). -/
+theorem constructor_accepted_new (x : Ext) (k : Kind) (lp server : Str)
+    (h : utf8Valid (newId (if k = .user then 64 else if k = .room then 33 else 36) lp server) = true)
+    (hk : k = .user ∨ k = .room ∨ k = .event)
+    (hlp : ∀ b ∈ lp, isAlnum b = true) (hsrv : validate x .server server = .ok ())
+    (hsu : utf8Valid server = true)
+    (hlen : lp.length + server.length + 2 ≤ 255) (h0 : k = .room → 0 ∉ server) :
+    validate x k (newId (if k = .user then 64 else if k = .room then 33 else 36) lp server)
+      = .ok () := by
+  have hs := sep_of_utf8Valid _ h
+  have hok := (serverNameValidate_ok_iff (sep_of_utf8Valid _ hsu)).1 hsrv
+  have hc : 58 ∉ lp := by
+    intro hm; have := hlp 58 hm; simp [isAlnum, isDigit, isLower, isUpper] at this
+  have hn : 0 ∉ lp := by
+    intro hm; have := hlp 0 hm; simp [isAlnum, isDigit, isLower, isUpper] at this
+  rcases hk with rfl | rfl | rfl
+  · simp only [if_true, newId] at hs ⊢
+    exact (delimitedValidate_ok_iff hs (by omega) (by omega)).2
+      ⟨lp, server, ⟨rfl, by simp; omega, hc, hok⟩, hn⟩
+  · simp only [newId] at hs ⊢
+    refine roomIdValidate_ok_iff.2 ⟨by simp; omega, rfl, ?_⟩
+    simp [hn, h0 rfl]
+  · simp only [newId] at hs ⊢
+    exact (eventIdValidate_ok_iff hs).2 (.inl ⟨lp, server, rfl, by simp; omega, hc, hok⟩)
+
+#print axioms validate_never_panics
+#print axioms validate_strict_never_panics
+#print axioms accessors_recompose_delimited
+#print axioms accessors_recompose_event
+#print axioms accessors_room
+#print axioms accessors_recompose_server
+#print axioms accessors_recompose_key
+#print axioms accessors_recompose_mxc
+#print axioms accept_implies_structure
+#print axioms length_limit
+#print axioms grammar_implies_accept_partial
+#print axioms grammar_not_always_accepted
+#print axioms grammar_implies_strict
+#print axioms constructor_accepted_parse_with_server_name
+#print axioms parse_with_server_name_total
+#print axioms constructor_accepted_key_from_parts
+#print axioms constructor_accepted_new
 end Ruma.Props.C10
